@@ -1207,6 +1207,11 @@ func TestVerifHandlerReplay(t *testing.T) {
 					line["probe"] = step.Probe
 					e.s3w.mu.Lock()
 					line["nfail"] = e.s3w.nfail
+					// the refused uploads were recorded by the log as failed S3 operations: they stay in the window the next
+					// fresh monitor is fed with
+					for k := 0; k < e.s3w.nfail; k++ {
+						e.fed = append(e.fed, vhSample{0, true})
+					}
 					e.s3w.mu.Unlock()
 				}
 				emit(line)
